@@ -41,6 +41,14 @@ func (f *fakeSource) String() string                                          { 
 // the single record.
 type listingRT struct{ pi *model.ProviderInfo }
 
+// sharedRT is listingRT with a record that can be exchanged: the source it
+// serves is shared by two caches, and what it serves changes between them.
+type sharedRT struct{ pi *model.ProviderInfo }
+
+func (t *sharedRT) RoundTrip(req *http.Request) (*http.Response, error) {
+	return listingRT{t.pi}.RoundTrip(req)
+}
+
 func (t listingRT) RoundTrip(req *http.Request) (*http.Response, error) {
 	a := multiaddr.StringCast("/ip4/9.9.9.9/tcp/9")
 	nbA, nbB := fixture.Key("ed25519", 7).ID, fixture.Key("ed25519", 8).ID
@@ -350,7 +358,7 @@ func firstLine(s string) string {
 
 func TestCheck(t *testing.T) {
 	r := vp.New("C17", "exploration",
-		"provider records: chain-level lists = every sequence of length <=N over {main, X, Y} x per-entry metadata {nil, empty, equal to looked-up, different}, every entry with addresses of its own (different from the provider record's and between chain-level and contextual lists); contextual sets for context IDs \"c\" and \"\" with the same alphabets (length <=M) and override on/off; metadata-list lengths {matching, truncated to every shorter length, one longer, nil} for lists of up to 3 providers; every record served directly, after a JSON round trip, and through the library HTTP source (WithClient + WithSourceURL; its listing holds the record between two other providers, one with extended providers of every kind and one with none), entering the cache by the constructor's preload refresh, by a GetResults that misses and by a plain Get that misses before any expansion is asked for; lookups: context ID in {\"c\",\"d\",empty} x metadata {nil,\"m\"}. Non-trivial: records with at least one extended provider. Distinct = distinct (record, transport, lookup).",
+		"provider records: chain-level lists = every sequence of length <=N over {main, X, Y} x per-entry metadata {nil, empty, equal to looked-up, different}, every entry with addresses of its own (different from the provider record's and between chain-level and contextual lists); contextual sets for context IDs \"c\" and \"\" with the same alphabets (length <=M) and override on/off; metadata-list lengths {matching, truncated to every shorter length, one longer, nil} for lists of up to 3 providers; every record served directly, after a JSON round trip, and through the library HTTP source (WithClient + WithSourceURL; its listing holds the record between two other providers, one with extended providers of every kind and one with none; for the lookup-miss entry the source is one NewHTTPSource shared with a second cache that fetches a newer record of the provider afterwards), entering the cache by the constructor's preload refresh, by a GetResults that misses and by a plain Get that misses before any expansion is asked for; lookups: context ID in {\"c\",\"d\",empty} x metadata {nil,\"m\"}. Non-trivial: records with at least one extended provider. Distinct = distinct (record, transport, lookup).",
 		"records whose metadata list length differs from the provider list: an error is accepted; where results are produced they are held to the expansion rules with a provider that has no entry in the metadata list counting as 'no metadata of its own (absent)'; surplus metadata entries are ignored",
 		"records with two contextual sets for the same context ID are not generated",
 	)
@@ -418,8 +426,21 @@ func TestCheck(t *testing.T) {
 					}
 				}
 				srcOpt := []pcache.Option{pcache.WithSource(&fakeSource{infos: []*model.ProviderInfo{pi}})}
-				if via == "http" {
+				var shared pcache.ProviderSource
+				var sharedServes *sharedRT
+				switch {
+				case via == "http" && entry != "miss":
 					srcOpt = []pcache.Option{pcache.WithClient(&http.Client{Transport: listingRT{pi}}), pcache.WithSourceURL("http://indexer.test")}
+				case via == "http":
+					// one HTTP source made by the caller (NewHTTPSource) and handed
+					// to this cache and, further down, to a second one
+					sharedServes = &sharedRT{pi}
+					hs, err := pcache.NewHTTPSource("http://indexer.test", &http.Client{Transport: sharedServes})
+					if err != nil {
+						panic(err)
+					}
+					shared = hs
+					srcOpt = []pcache.Option{pcache.WithSource(hs)}
 				}
 				var pc *pcache.ProviderCache
 				var err error
@@ -508,6 +529,39 @@ func TestCheck(t *testing.T) {
 					if len(got) >= 4 {
 						r.Sample(map[string]any{"record": rkey, "lookup_ctx": string(lk.ctx), "results": fmt.Sprint(want)})
 					}
+				}
+				// the shared source: the indexer now serves another record for the
+				// provider (no extended providers at all), a second cache over the
+				// same source looks it up; the first cache still expands the
+				// record it cached
+				if shared != nil {
+					key := fmt.Sprintf("rec|%s|json=http|shared-source", rkey)
+					r.Eval(key, rc.hasExt)
+					sharedServes.pi = &model.ProviderInfo{AddrInfo: peer.AddrInfo{ID: mainID, Addrs: addrs[0]}, LastAdvertisementTime: "2024-02-02T00:00:00Z"}
+					pcB, err := pcache.New(pcache.WithSource(shared), pcache.WithRefreshInterval(0), pcache.WithPreload(false))
+					if err != nil {
+						panic(err)
+					}
+					lk := lookups[0]
+					if pn, m := vp.Guard(func() { _, _ = pcB.GetResults(context.Background(), mainID, lk.ctx, lk.md) }); pn {
+						r.Violation("GetResults:panic:second-cache-over-a-shared-source", key, firstLine(m), nil)
+						continue
+					}
+					var got []model.ProviderResult
+					var gerr error
+					if pn, m := vp.Guard(func() { got, gerr = pc.GetResults(context.Background(), mainID, lk.ctx, lk.md) }); pn {
+						r.Violation("GetResults:panic:second-cache-over-a-shared-source", key, firstLine(m), nil)
+						continue
+					}
+					if rc.mismatched() && gerr != nil {
+						continue
+					}
+					want := spec(rc, lk.ctx, lk.md)
+					if ok, why := sameResults(got, want); gerr != nil || !ok {
+						r.Violation("GetResults:wrong:after-a-second-cache-used-the-same-http-source", key, fmt.Sprintf("record %s cached by one cache; a second cache over the same NewHTTPSource fetched a newer record of the provider; the first cache now expands to %v (err %v, %s), its record expands to %v", rkey, fmtGot(got), gerr, why, want), nil)
+						continue
+					}
+					r.Outcome("shared-source-ok")
 				}
 			}
 		}
